@@ -153,6 +153,7 @@ func orderAndCopies(e *Env) {
 		}
 	}
 	sent2 := false
+	var welcome2At uint64 // event number at which the second connection's server sent its welcome
 	// "however long handlers take": the dial/keep-alive timeout is a tuning knob
 	// that must not bound handler time, so it is varied and a few invocations
 	// outlast it several times over
@@ -197,6 +198,7 @@ func orderAndCopies(e *Env) {
 				if _, ok := Registration(l, time.Hour); !ok {
 					return
 				}
+				welcome2At = e.S.Stamp()
 				l.SendLine(":irc.sim 001 me2 :Welcome back me2!i@h.sim")
 				for j := 0; j < n2; j++ {
 					evs[n+j].at = e.S.Stamp()
@@ -741,6 +743,39 @@ func orderAndCopies(e *Env) {
 	} else if early == 0 {
 		e.Violation("connected-missing", "the welcome was sent but CONNECTED was never delivered (%d)", nConnH)
 		return
+	}
+	// the second connection has a welcome of its own: CONNECTED is delivered for
+	// it too, before any of its later lines - whatever state the first connection
+	// was in when it went down (its own welcome may have been in flight)
+	if second && sent2 && len(discEnter) > 0 {
+		var firstFg uint64
+		delivered := 0
+		for _, ln := range lines {
+			if ln < n {
+				continue
+			}
+			for _, r := range byLine[ln] {
+				delivered++
+				if firstFg == 0 || r.enter < firstFg {
+					firstFg = r.enter
+				}
+			}
+		}
+		if delivered > 0 {
+			ok := false
+			for _, cr := range connected {
+				// (after the second welcome was sent: the first connection has been
+				// torn down by then, its handlers included)
+				if cr.enter > welcome2At && cr.exit <= firstFg {
+					ok = true
+				}
+			}
+			e.Check()
+			if !ok {
+				e.Violation("connected-missing", "the second connection was welcomed and %d of its lines were delivered (the first at event %d), but no CONNECTED handler ran between the sending of its welcome (event %d) and that line (CONNECTED invocations: %d in all)", delivered, firstFg, welcome2At, len(connected))
+				return
+			}
+		}
 	}
 	// DISCONNECTED after every foreground invocation finished
 	for k, d := range discEnter {
